@@ -581,13 +581,34 @@ def pair_true_distance(w, g1, g2):
   return float(dist)
 
 
+def _gap_along(s1, s2, n):
+  """min_{b in geom2} n.b - max_{a in geom1} n.a : the separation of the two convex shapes along the unit direction n.
+  For every n this is a lower bound of the true distance, with equality for the direction of the shortest segment."""
+  if s1.typ == 'plane':
+    nz = s1.mat[:, 2]
+    if np.linalg.norm(n - nz) > 1e-6:
+      return -math.inf
+    return -geomref.hsup(s2, -n) - float(n @ s1.pos)
+  if s2.typ == 'plane':
+    nz = s2.mat[:, 2]
+    if np.linalg.norm(n + nz) > 1e-6:
+      return -math.inf
+    return float(n @ s2.pos) - geomref.hsup(s1, n)
+  return -geomref.hsup(s2, -n) - geomref.hsup(s1, n)
+
+
 def collision_expect(w, i, kind):
   """distance / normal / fromto (collision-sensors section).  cutoff = maximum detection distance; distance returns
-  cutoff when nothing is detected; body1/body2 select the pair with the smallest signed distance."""
+  cutoff when nothing is detected; body1/body2 select the pair with the smallest signed distance.
+  Reference distance of a pair: closed form (geomref.pair_distance) when there is one; otherwise, for separated pairs,
+  the engine's own mj_geomDistance witness segment is CERTIFIED (end points on the two surfaces => upper bound;
+  separation along the segment direction by support functions => lower bound); penetrating pairs without a closed form
+  are cross-checked against mj_geomDistance only."""
   m, d, lib = w.m, w.d, w.lib
   cutoff = float(m.sensor_cutoff[i])
   G1 = _geoms_of(w, int(m.sensor_objtype[i]), int(m.sensor_objid[i]))
   G2 = _geoms_of(w, int(m.sensor_reftype[i]), int(m.sensor_refid[i]))
+  tol_geo = 1e-5     # convex-collision (CCD) tolerance of the narrow phase: opt.ccd_tolerance = 1e-6 by default
   pairs = []
   level = 'oracle'
   ft = np.zeros(6)
@@ -599,9 +620,18 @@ def collision_expect(w, i, kind):
         ft[:] = 0
         td = float(lib.mj_geomDistance(m, d, g1, g2, max(cutoff, 0.0) + 1.0, ft))
         src = 'engine'
-        level = 'crosscheck'
+        if 100 * tol_geo < td < max(cutoff, 0.0) + 1.0 - 1e-9:
+          s1 = geomref.shape_from_model(m, d, g1)
+          s2 = geomref.shape_from_model(m, d, g2)
+          seg = ft[3:] - ft[:3]
+          ln = float(np.linalg.norm(seg))
+          sc = 1 + td
+          if (ln > 0 and abs(geomref.sdf(s1, ft[:3])) <= 10 * tol_geo * sc and abs(geomref.sdf(s2, ft[3:])) <= 10 * tol_geo * sc
+              and abs(ln - td) <= 10 * tol_geo * sc and _gap_along(s1, s2, seg / ln) >= td - 10 * tol_geo * sc):
+            src = 'certified'
+        if src == 'engine' and level == 'oracle':
+          level = 'crosscheck'
       pairs.append((td, g1, g2, src))
-  tol_geo = 1e-5     # convex-collision (CCD) tolerance of the narrow phase: opt.ccd_tolerance = 1e-6 by default
   if not pairs:
     best = None
   else:
@@ -612,13 +642,16 @@ def collision_expect(w, i, kind):
   if len(pairs) > 1 and abs(pairs[1][0] - pairs[0][0]) < 10 * tol_geo and pairs[0][0] < cutoff + 10 * tol_geo:
     fragile = True
   dist = best[0] if detected else cutoff
+  if kind != 'distance' and detected and abs(best[0]) < 100 * tol_geo:
+    fragile = True        # touching: the direction of the (zero-length) shortest segment is undefined
+  note = 'fragile' if fragile else ('detected:' + best[3] if detected else 'undetected')
 
   if kind == 'distance':
     want = np.array([dist])
     if cutoff > 0:
       want = np.clip(want, -cutoff, cutoff)
     return Result('tol' if not fragile else 'none', want=want, tol=tol_geo * (1 + abs(dist)), level=level, cls='geom',
-                  note='fragile' if fragile else '')
+                  note=note)
 
   def check(got):
     if fragile:
@@ -645,29 +678,19 @@ def collision_expect(w, i, kind):
         return False, 'fromto end points not on the surfaces of geom1/geom2: sdf1(from)=%g sdf2(to)=%g' % (e1, e2)
       if abs(sep - abs(dist)) > tol_geo * 10 * sc:
         return False, '|to-from|=%.12g but |signed distance|=%.12g' % (sep, abs(dist))
-      if dist > 100 * tol_geo:
-        # separated: the segment must leave geom1 (to is outside geom1, from is outside geom2)
-        if geomref.sdf(s1, to) < dist - 10 * tol_geo * sc or geomref.sdf(s2, fr) < dist - 10 * tol_geo * sc:
-          return False, 'fromto segment is not the shortest segment between the surfaces'
       return True, ''
     # normal: unit vector from the surface of geom1 to the surface of geom2
     n = got
     if abs(np.linalg.norm(n) - 1) > 1e-9:
       return False, 'normal of a detected collision is not a unit vector: %r' % n.tolist()
-    # independent direction for separated closed-form pairs sphere/plane-X: gradient of geom2's sdf at geom1's
-    # closest point is -n; use a finite-difference test of optimality: moving geom1's witness along n by |dist|
-    # lands on geom2's surface.
-    if abs(dist) > 1000 * tol_geo:
-      ft2 = np.zeros(6)
-      lib.mj_geomDistance(m, d, g1, g2, max(cutoff, 0.0) + 1.0, ft2)     # witness point on geom1 (cross-check)
-      p_to = ft2[:3] + n * abs(dist)     # to = from + |dist| n, also when penetrating
-      e2 = abs(geomref.sdf(s2, p_to))
-      if e2 > 100 * tol_geo * sc:
-        return False, 'from + dist*normal is not on the surface of geom2 (sdf=%g): normal direction wrong' % e2
+    if dist > 100 * tol_geo:
+      gap = _gap_along(s1, s2, n)
+      if gap < dist - 10 * tol_geo * sc:
+        return False, ('separation of the two geoms along the reported normal is %.12g but their distance is %.12g: '
+                       'the normal is not the direction of the shortest segment from geom1 to geom2' % (gap, dist))
     return True, ''
 
-  return Result('custom', check=check, level=level if kind == 'fromto' else 'crosscheck', cls='geom',
-                note='fragile' if fragile else '')
+  return Result('custom', check=check, level=level, cls='geom', note=note)
 
 
 def _crit_match(w, crit, geom, body):
@@ -1027,11 +1050,22 @@ def expect(w, i, spec=None):
       pl = R.T @ (c['pos'] - p)
       nl = R.T @ c['frame'][0]
       ins, s1 = inside_volume(typ, size, pl)
-      hit, s2 = line_hits_volume(typ, size, pl, nl)
+      b1, b2 = c['body']
+      if b1 == b2:
+        # contact between two geoms of the sensor's own body: the direction of the 'normal ray' is not defined by
+        # the documentation -> bracket with the full line
+        hit, s2 = line_hits_volume(typ, size, pl, nl)
+        hit_lo = ins
+      else:
+        # re-projection ('the contact point may leave the sensor zone from the back'): the ray starts at the contact
+        # point and runs along the contact normal out of the sensor's body, towards the other body
+        # (mjContact.frame normal points from geom1 to geom2)
+        hit, s2 = line_hits_volume(typ, size, pl, nl if b == b1 else -nl, half=True)
+        hit_lo = hit or ins
       if abs(s1) < 1e-9 or abs(s2) < 1e-9:
         fragile = True
       ncand += 1
-      if ins:
+      if hit_lo:
         lo += fn
       if hit or ins:
         hi += fn
